@@ -43,6 +43,8 @@ func main() {
 		"listeners sharing one real Limiter, every goroutine driven to a parked state (checked in the " +
 		"goroutine dump, no sleeps) after each op, state compared with the model and checked by the " +
 		"tally-based property oracle; pipeline: real ServerDNS on loopback TCP with a gated handler; " +
+		"glue/svc/ends: a real dnssvc.Service (production NewListener and ListenConfig glue, ServerDNS and ServerTLS) " +
+		"under saturating TCP/TLS load against the sawtooth tally, every stream listener of dnssvc counted by the shared limiter; " +
 		"non-trivial = the limiter stopped at least once and a waiter was admitted or released later " +
 		"(pipeline: the reader blocked on the semaphore); distinct = distinct op scripts"
 	log.SetOutput(io.Discard)
@@ -64,6 +66,9 @@ func main() {
 	stormCampaign(o, r)
 	concurrentCloseCampaign(o, r)
 	pipelineCampaign(o, r, m)
+	glueCampaign(r, nil)
+	svcCampaign(o, r, m)
+	endsCampaign(r)
 
 	r.Finish()
 }
@@ -2129,6 +2134,9 @@ func replay(o *hlib.Opts, r *hlib.Result, m *hlib.Model) {
 			Win      *winCase   `json:"win"`
 			Storm    *stormCase `json:"storm"`
 			Pipe     *pipeCase  `json:"pipe"`
+			Glue     *glueCase  `json:"glue"`
+			Svc      *svcCase   `json:"svc"`
+			Ends     *endsCase  `json:"ends"`
 		} `json:"replay"`
 	}
 	hlib.Must(json.Unmarshal(b, &f))
@@ -2145,6 +2153,12 @@ func replay(o *hlib.Opts, r *hlib.Result, m *hlib.Model) {
 		}
 	case "pipeline":
 		runPipeCase(r, m, f.Replay.Pipe)
+	case "glue":
+		glueCampaign(r, f.Replay.Glue)
+	case "svc":
+		runSvcCase(r, m, f.Replay.Svc)
+	case "ends":
+		runEndsCase(r, f.Replay.Ends)
 	default:
 		concurrentCloseCampaign(o, r)
 	}
